@@ -199,6 +199,46 @@ var properties = map[string]*propDef{
 			QuickBudget: 25 * time.Second, QuickWorkers: 8, ThoroughBudget: 15 * time.Minute, ThoroughWorkers: 16,
 		}},
 	},
+	"C08": {
+		Level: "exploration",
+		Rule:  "(engine under construction)",
+		Units: []unit{{
+			Name: "core-codec", Module: "core", Package: "./pkg/distribution/framer/codec", Passes: []string{"detrange"}, Engines: []string{"c08"},
+			QuickBudget: 25 * time.Second, QuickWorkers: 8, ThoroughBudget: 12 * time.Minute, ThoroughWorkers: 16,
+		}},
+	},
+	"C14": {
+		Level: "exploration",
+		Rule:  "(engine under construction)",
+		Units: []unit{{
+			Name: "freighter-stream", Module: "freighter/go", Package: "./test", Passes: allPasses, Engines: []string{"c14"},
+			QuickBudget: 25 * time.Second, QuickWorkers: 8, ThoroughBudget: 12 * time.Minute, ThoroughWorkers: 16,
+		}},
+	},
+	"C16": {
+		Level: "exploration",
+		Rule:  "(engine under construction)",
+		Units: []unit{{
+			Name: "core-ontology", Module: "core", Package: "./pkg/distribution/ontology", Passes: []string{"detrange"}, Engines: []string{"c16"},
+			QuickBudget: 25 * time.Second, QuickWorkers: 8, ThoroughBudget: 12 * time.Minute, ThoroughWorkers: 16,
+		}},
+	},
+	"C17": {
+		Level: "exploration",
+		Rule:  "(engine under construction)",
+		Units: []unit{{
+			Name: "x-gorp", Module: "x/go", Package: "./gorp", Passes: allPasses, Engines: []string{"c17"},
+			QuickBudget: 25 * time.Second, QuickWorkers: 8, ThoroughBudget: 12 * time.Minute, ThoroughWorkers: 16,
+		}},
+	},
+	"C18": {
+		Level: "exploration",
+		Rule:  "(engine under construction)",
+		Units: []unit{{
+			Name: "core-rbac", Module: "core", Package: "./pkg/service/access/rbac", Passes: []string{"detrange"}, Engines: []string{"c18"},
+			QuickBudget: 25 * time.Second, QuickWorkers: 8, ThoroughBudget: 12 * time.Minute, ThoroughWorkers: 16,
+		}},
+	},
 	"C11": {
 		Level: "exploration",
 		Rule: "cases: 1-4 initial members whose views (Config.Candidates) are complete or random subsets, 1-4 pledges started at drawn virtual times through drawn peer lists, a gossip task that lets admitted members become known to the others one by one at drawn times (or never), whether the member a pledge joined through learns of it at once, and a network profile (request loss, delay up to and beyond the request timeout, delivery after the caller gave up) that stops at a drawn time; everything runs under the seeded scheduler (random / sticky / PCT) on the virtual clock. non-trivial = >=2 pledges; distinct = case shape + scheduler trace hash",
